@@ -486,6 +486,34 @@ def extract_some(rng, spec, p=.3, log=None, size_on_elem_ref=False):
     spec.types.extend(new)
 
 
+def alias_some(rng, spec, p=.3, log=None, recursive_ok=False):
+    """Replace a reference to N by a reference to a new alias  A ::= N  (so that types are reached
+    through chains of references; after splitting into modules only the first name of a chain is
+    imported by the referencing module).  References that close a cycle are left alone unless
+    [recursive_ok] (known finding recursion-through-imported-alias)."""
+    new = []
+    cnt = [0]
+    td = spec.tdict()
+
+    def go(owner, t):
+        for h, key in children(t):
+            c = h[key]
+            go(owner, c)
+            if c['k'] == 'REF' and rng.random() < p:
+                if not recursive_ok and (c['name'] == owner or reaches(td, c['name'], owner)):
+                    continue
+                cnt[0] += 1
+                an = 'A%d' % (cnt[0] + 100 * len(spec.types))
+                new.append((an, {'k': 'REF', 'name': c['name'], 'size': None, 'c': None}))
+                td[an] = new[-1][1]
+                c['name'] = an
+                if log is not None:
+                    log.append('alias %s%s' % (an, ' [elem]' if key == 'elem' else ''))
+    for n, t in spec.types:
+        go(n, t)
+    spec.types.extend(new)
+
+
 def expand_compof_some(rng, spec, p=.5, log=None):
     td = spec.tdict()
 
@@ -518,7 +546,7 @@ def inline_values_some(rng, spec, p=.4):
         walk(t, f)
 
 
-ALL_KINDS = ('inline', 'extract', 'compof', 'values', 'split', 'permute')
+ALL_KINDS = ('inline', 'extract', 'alias', 'compof', 'values', 'split', 'permute')
 
 
 def arrange(rng, spec, nmods=None, reorganise=True, log=None, keep_compof_order=False, kinds=ALL_KINDS):
@@ -531,6 +559,10 @@ def arrange(rng, spec, nmods=None, reorganise=True, log=None, keep_compof_order=
             extract_some(rng, s, rng.choice([.2, .5]), log)
         if 'inline' in kinds and rng.random() < .4:
             inline_some(rng, s, .3, log)
+        if 'alias' in kinds and rng.random() < .6:
+            alias_some(rng, s, rng.choice([.3, .7]), log)
+            if rng.random() < .5:
+                alias_some(rng, s, .5, log)          # chains of length >= 2
         if 'compof' in kinds and rng.random() < .5:
             expand_compof_some(rng, s, rng.choice([.5, 1.0]), log)
         if 'values' in kinds and rng.random() < .5:
